@@ -84,7 +84,7 @@ var (
 		{Enabled: true, Type: "http", Host: "proxy.example", Port: "8080"},
 		{Enabled: true, Type: "https", Host: "10.1.1.1", Port: "3128", Username: "user", Password: "p@ss wörd"},
 	}
-	vKillDate = []int64{0, 133801632000000000}
+	vKillDate = []int64{0, 133801632000000000, 2650467743990000000} // none, 2025, 9999-12-31 23:59:59
 	vHours    = []string{"", "8:00-17:00", "0:00-23:59", "17:00-8:00", "24:00-24:30", "8:00-24:00", "abc"}
 	vMethod   = []string{"POST", "GET", "get", ""}
 	vRotation = []string{"round-robin", "random", ""}
